@@ -88,6 +88,10 @@ type RunConfig struct {
 	// live (Raft.BootstrapCluster with the same configuration) some time into the run
 	LateBootstrap int `json:"late_bootstrap,omitempty"`
 
+	// TornBatches: the plain log store writes a batch entry by entry: a crash placed at a StoreLogs leaves a
+	// proper prefix of the batch durable
+	TornBatches bool `json:"torn_batches,omitempty"`
+
 	LeaseOracle     bool `json:"lease_oracle"`
 	IsolationOracle bool `json:"isolation_oracle"`
 	ShutdownAtEnd   bool `json:"shutdown_at_end"`
@@ -226,6 +230,10 @@ func DrawConfig(ch *simrt.Chooser, profile string, thorough bool) *RunConfig {
 	eager := ch.Choose(simrt.SCfg, 3) == 1
 	if c.StoreFlavour == FlavourCommitTracking && eager {
 		c.CommitEager = true
+	}
+	torn := ch.Choose(simrt.SCfg, 2) == 1
+	if c.StoreFlavour == FlavourPlain && torn {
+		c.TornBatches = true
 	}
 	return c
 }
